@@ -1209,7 +1209,7 @@ def run(ctx):
     # run again, serially, with a long watchdog; what the second run gives is judged.  More than
     # MAX_RERUN of them is not load but a broken implementation: then nothing is re-run and the
     # first answers are judged.
-    MAX_RERUN = 25
+    MAX_RERUN = max(25, len(cases) // 250)
     inconclusive = []
     for c in cases:
         r = impl.get(c["id"])
